@@ -403,15 +403,17 @@ def hook_signature(events: list[dict], h: int, direction: str, obs_row: list[int
     considered = regs[: h - 1] if direction == "raised" else regs[: h - 1] + regs[h:]
     shared = any(x["r"] == e["r"] and x["f"] != "apply" for x in considered)
     if direction != "raised":
-        if expect is not None and j > 1 and o:
-            now = expect[j - 1][h - 1][o - 1]
-            earlier = [(m[h - 1][o - 1] if len(m) >= h else 0) for m in expect[: j - 1]]
-            if any(v != now for v in earlier):
+        if expect is not None and j >= 1 and o and obs_row is not None:
+            now = expect[j - 1][h - 1]
+            # the whole observed row is what was right at an EARLIER generation of this history (not registered yet = nothing)
+            earlier = [(m[h - 1] if len(m) >= h else [0] * len(now)) for m in expect[: j - 1]]
+            if any(r == obs_row and r != now for r in earlier):
                 return "C19:generate:not-the-hooks-in-force-at-this-generation:%s" % direction
-        if expect is not None and ops is not None and o and _twin(ops, o):
-            row = expect[j - 1][h - 1]
-            if row[o - 1] != row[_twin(ops, o) - 1] and scope == "global":
-                return "C19:same-label-operations-of-two-schemas:%s" % direction
+            # every wrong cell of the row carries the answer of the same-label operation of the other schema
+            if ops is not None:
+                wrong = [q for q in range(1, len(now) + 1) if obs_row[q - 1] != now[q - 1]]
+                if wrong and all(_twin(ops, q) and obs_row[q - 1] == now[_twin(ops, q) - 1] for q in wrong):
+                    return "C19:same-label-operations-of-two-schemas:%s" % direction
         if any(x["ev"] == "unreg" and x["t"] == h and x["r"] == scope for x in events[pos + 1:]):
             return "C19:unregister:%s" % ("still-applied" if direction == "spurious" else "missing")
         if e["n"].endswith("_case"):
@@ -558,7 +560,7 @@ def _hook_violations(case: dict, res: dict, cat: dict) -> list[Violation]:
                 text(op["method"]).upper(), text(op["path"]), op.get("schema", "A"), case["expect"][j - 1][h - 1], res["obs"][j - 1][h - 1],
                 _short(case["events"]), case.get("order", "AB"))
         out.append(Violation(sig, summary, data))
-    for j, h, o in _called_without_effect(case["events"], res)[:1]:
+    for j, h, o in ([] if out else _called_without_effect(case["events"], res)[:1]):
         out.append(Violation(
             "C19:data:hook-called-but-effect-not-in-generated-data",
             "generation %d: hook #%d called=%s but marker in data=%s in history: %s" % (
